@@ -1,6 +1,7 @@
 package accessory
 
 import (
+	"bytes"
 	"crypto/md5"
 	"encoding/json"
 	"fmt"
@@ -96,8 +97,12 @@ func (m *Container) ContentHash() []byte {
 		log.Info.Panic(err)
 	}
 
+	// Numbers are kept as they are written: as float64 two ids (or two limits)
+	// above 2^53 which differ would become the same number.
 	val := map[string]interface{}{}
-	if err := json.Unmarshal(b, &val); err != nil {
+	dec := json.NewDecoder(bytes.NewReader(b))
+	dec.UseNumber()
+	if err := dec.Decode(&val); err != nil {
 		log.Info.Panic(err)
 	}
 
